@@ -1221,6 +1221,9 @@ class PGPMessage(Armorable, PGPObject):
 
         if sessionkey is None:
             sessionkey = cipher_algo.gen_key()
+
+        elif len(sessionkey) != cipher_algo.key_size // 8:
+            raise ValueError("session key must be {:d} octets long for {:s}".format(cipher_algo.key_size // 8, cipher_algo.name))
         skesk.encrypt_sk(passphrase, sessionkey)
         del passphrase
 
@@ -2546,6 +2549,9 @@ class PGPKey(Armorable, ParentRef, PGPObject):
 
         if sessionkey is None:
             sessionkey = cipher_algo.gen_key()
+
+        elif len(sessionkey) != cipher_algo.key_size // 8:
+            raise ValueError("session key must be {:d} octets long for {:s}".format(cipher_algo.key_size // 8, cipher_algo.name))
 
         # set up a new PKESessionKeyV3
         pkesk = PKESessionKeyV3()
